@@ -74,23 +74,23 @@ def gen_call(rng):
             if rng.random() < 0.5 and k:
                 pos[0] = rng.choice([0, Ln - 1])     # the trimmed edge
             rows += [[i, p] for p in set(pos)]
-        if not rows:
+        if rng.random() < 0.85 and not rows:
             rows = [[0, rng.randrange(Ln)]]
     elif op == "insertion":
         for i in range(n):
             k = rng.choice([0, 1, 1, 2, 3])
             pos = rng.sample(range(Ln), k)
             rows += [[i, p, rng.randrange(A)] for p in pos]
-        if not rows:
+        if rng.random() < 0.85 and not rows:
             rows = [[0, rng.randrange(Ln), 1]]
     else:
         for i in range(n):
             k = rng.choice([0, 1, 2, 3])
             for _ in range(k):
                 rows.append([i, rng.randrange(Ln), rng.randrange(A)])
-        if not rows:
+        if rng.random() < 0.85 and not rows:
             rows = [[0, 0, 1]]
-        if rng.random() < 0.3:
+        if rows and rng.random() < 0.3:
             rows.append(list(rows[0]))          # a repeated row
     if rng.random() < 0.05:
         rows.append([n, 0] + ([1] if op != "deletion" else []))
